@@ -3,7 +3,10 @@ package c12
 import (
 	"bytes"
 	"context"
+	"crypto/aes"
+	"crypto/cipher"
 	"fmt"
+	"io"
 	"net/http"
 	"net/http/httptest"
 	"strings"
@@ -223,4 +226,62 @@ func opFzSim(seed, n, defs, events string) (string, string) {
 	case <-time.After(40 * time.Second):
 		return "hang", "hang-fzsim: the session did not come to rest"
 	}
+}
+
+// opFzConn: the whole client pipeline on a scripted connection after a finished handshake:
+// one valid encrypted frame, then the given bytes. Oracle: the valid frame is delivered, nothing
+// panics, and run ends when the stream does.
+func opFzConn(hexs string) (string, string) {
+	setup()
+	_, pub := remoteKey()
+	key := bytes.Repeat([]byte{7}, 32)
+	nonce := bytes.Repeat([]byte{9}, 12)
+	block, _ := aes.NewCipher(key)
+	gcm, _ := cipher.NewGCM(block)
+	good := framed(gcm.Seal(nil, nonce, buildFrame("K/known/1/0", true), nil))
+	feed := make(chan p2p.P2PMessage, 16)
+	fin := make(chan error, 1)
+	conn := &chunkConn{chunks: make(chan []byte, 2)}
+	conn.chunks <- good
+	go func() { fin <- p2p.VerifPRunClient(conn, pub, key, nonce, feed) }()
+	// the valid frame first; the case's bytes only once it went through (a frame that is still in the
+	// pipeline when the connection is torn down is lost, which is not what this case is about)
+	delivered := false
+	select {
+	case <-feed:
+		delivered = true
+	case <-time.After(stepWait):
+	}
+	if b := h.UnHex(hexs); len(b) > 0 {
+		conn.chunks <- b
+	}
+	close(conn.chunks)
+	select {
+	case <-fin:
+	case <-time.After(stepWait):
+		return "hang", "hang-fzconn: client.run did not end with the stream"
+	}
+	if !delivered {
+		return "nopanic", "not-serving-fzconn: the valid first frame was not delivered"
+	}
+	return "nopanic", ""
+}
+
+// chunkConn hands out the queued chunks, blocks while the queue is empty and ends when it is closed
+type chunkConn struct {
+	sconn
+	chunks chan []byte
+}
+
+func (c *chunkConn) Read(b []byte) (int, error) {
+	for len(c.data) == 0 {
+		d, ok := <-c.chunks
+		if !ok {
+			return 0, io.EOF
+		}
+		c.data = d
+	}
+	n := copy(b, c.data)
+	c.data = c.data[n:]
+	return n, nil
 }
